@@ -102,6 +102,11 @@ contract(
         "k < len(grid(i)), grid(i)[j] < grid(i)[k]))))",
         # the reported size is the product of the grid lengths
         "self.space_size == fprod(lambda j: arange_len(lb(j), ub(j) + 0.0000001, pr(j)), n())",
+        # the specification itself is kept as given
+        "len(self.parameters_precision) == len(parameters_precision) and forall(range(0, len(parameters_precision)), "
+        "lambda c: self.parameters_precision[c] == parameters_precision[c])",
+        "len(parameters_bounds) == 2 and self.parameters_bounds.shape[0] == len(parameters_bounds) and self.parameters_bounds.shape[1] == len(parameters_bounds[0]) and forall(range(0, len(parameters_bounds)), lambda r: "
+        "forall(range(0, len(parameters_bounds[r])), lambda c: self.parameters_bounds[r, c] == parameters_bounds[r][c]))",
     ],
     modifies=["self.*"],
     notes="np.arange is an assumed contract in REAL arithmetic: NumPy computes the length as ceil((stop-start)/step) in "
